@@ -291,6 +291,9 @@ func familySession(t *testing.T) {
 	rng := T.rng
 	synctest.Test(t, func(t *testing.T) {
 		defer guard()
+		if T.prop == "C09" {
+			contentSweep(rng)
+		}
 		nHist := T.size(70, 600)
 		for h := 0; h < nHist; h++ {
 			s := &sessRun{jar: jar{}, toks: map[string]string{}, known: true, h: h, force: h%3 == 0}
@@ -308,6 +311,52 @@ func familySession(t *testing.T) {
 		}
 		T.finish()
 	})
+}
+
+// contentSweep (C09): session contents of every size up to and beyond what one cookie can hold. Only the main cookie can approach the
+// codec's length limit, so one of its fields is grown byte by byte across that limit; every value that is emitted is analysed without
+// the key (whether the Save succeeds or fails is not judged here: sizes beyond what the handler stores are outside C17/C18).
+func contentSweep(rng *mrand.Rand) {
+	for _, force := range []bool{false, true} {
+		sm, _ := oidc.NewSessionManager(sessKey, force, oidc.NewLogger("none"))
+		step := 1
+		if !T.thorough() {
+			step = 1
+		}
+		for n := 1500; n <= 2500; n += step {
+			secret := fmt.Sprintf("sweep-%d-", n) + strings.Repeat("e", n-10) + "@example.com"
+			r := httptest.NewRequest("GET", "http://app.test/", nil)
+			sd, err := sm.GetSession(r)
+			if err != nil {
+				continue
+			}
+			sd.SetAuthenticated(true)
+			switch n % 3 {
+			case 0:
+				sd.SetEmail(secret)
+			case 1:
+				sd.SetIncomingPath(secret)
+			default:
+				sd.SetEmail(secret[:len(secret)/2])
+				sd.SetCSRF(secret[len(secret)/2:])
+			}
+			rec := httptest.NewRecorder()
+			sd.Save(r, rec)
+			for _, line := range rec.Header()["Set-Cookie"] {
+				name := line[:strings.IndexByte(line, '=')]
+				val := line[len(name)+1:]
+				if i := strings.IndexByte(val, ';'); i >= 0 {
+					val = val[:i]
+				}
+				if val != "" {
+					keylessCheck("C09", name, val, []string{secret, secret[:len(secret)/2], secret[len(secret)/2:]}, func() interface{} {
+						return M{"family": "session", "sweep": "main-cookie content", "content_bytes": len(secret), "field": []string{"email", "incoming_path", "email+csrf"}[n%3], "forceHTTPS": force}
+					})
+				}
+			}
+			T.stat("session.content-sweep.saves")
+		}
+	}
 }
 
 func (s *sessRun) request(rng *mrand.Rand, q int) {
